@@ -1,6 +1,9 @@
 """C04 - validity flags, NaN costs and invalid disparities tell one coherent story.
 
-(E) TLC: MC_MatchingCost proves on small scopes that the three characterisations of an invalid pixel coincide for the
+(E) TLC: PandoraPipeline.tla composes the step operators (matching cost, winner-takes-all, refinement, median filter, cross-checking,
+    left and right products) and checks over every legal pipeline of up to 5-6 steps on every problem of its scope: Coherent,
+    NoUndocumentedBit, NeverBoth, FinalDispInInterval, RefineHalfSample, OnlyOwnBitsAdded, MaskFrozenByFilter (with vacuity gates).
+    MC_MatchingCost proves on small scopes that the three characterisations of an invalid pixel coincide for the
     specification (T_Coherent), that border pixels are {0} and that no undocumented bit is produced (T_Border).
 (B3) real executions: (a) the matching_cost step on mask/nodata layouts x intervals x windows: flags compared bit-set for
     bit-set with Criteria!MatchingBits, and cost NaN pattern with ~Computable (clauses flags / cost_value);
@@ -71,6 +74,17 @@ def run(tier):
                   workers=16, timeout=1800, heap="8g")
     for inv in res.invariant_violations:
         chk.violation("spec:" + inv, {"model": "MC_MatchingCost", "invariant": inv}, {"tlc": res.trace_text()}, "")
+    # the step operators COMPOSED: every legal pipeline up to 5 (6 thorough) steps on every small problem, both sides
+    pm = chk.tlc("PandoraPipeline", "PandoraPipeline_thorough.cfg" if thor else "PandoraPipeline.cfg", label="pipeline_model", workers=16, timeout=1800, heap="8g")
+    for inv in pm.invariant_violations + pm.property_violations:
+        chk.violation("spec:" + inv, {"model": "PandoraPipeline", "invariant": inv}, {"tlc": pm.trace_text()}, "the composed step operators violate " + inv)
+    if pm.temporal:
+        chk.violation("spec:action_property", {"model": "PandoraPipeline", "invariant": "OnlyOwnBitsAdded/MaskFrozenByFilter"}, {"tlc": pm.trace_text()}, "")
+    for vc, name in (("PandoraPipeline_vac.cfg", "NoValidationFlag"), ("PandoraPipeline_vac2.cfg", "NoRefinedDisparity")):
+        v = chk.tlc("PandoraPipeline", vc, label="vac_" + name, workers=8, timeout=600, expect_ok=False)
+        if name not in v.invariant_violations:
+            from vp.core import MachineryFailure
+            raise MachineryFailure(f"vacuity gate: {name} is not violated in the pipeline model")
     cases, meta = [], {}
     # ---- (a) matching_cost flags on mask layouts -----------------------------------------------------------------
     n = 0
